@@ -1,4 +1,5 @@
-import Nstd.Callback.LemmasTop
+import Nstd.Callback.LemmasMonitor
+import Nstd.Callback.LemmasFuel
 /-
   Property C12 — signals reach exactly the connected slots, safely under re-entrancy.
 
@@ -9,7 +10,8 @@ import Nstd.Callback.LemmasTop
   list of top-level actions, each to completion with its own fuel, as the driver does.
   Every theorem is for all programs `P`, all numbers of emitters/listeners, all action lists
   and all fuel (when the fuel runs out both evaluators stop at the same point, so the
-  statements hold without a side condition).
+  statements hold without a side condition; `fuel_irrelevant`: a run that did not run out is
+  the same for every larger fuel).
 
   The proof is a simulation: `Sim m s K` (Inv.lean) relates a model state `m` — three slot
   states, dirty flags, the stack of activation frames with `next`/`invalidated` — to a
@@ -111,6 +113,25 @@ theorem never_after_disconnect_or_destroy {m : State} {s : SState} {K : MStack} 
     · simp only [hea, if_false] at hs
       cases hs
 
+/-- **never_after_disconnect_or_destroy, over whole runs.**  `monitored` is the model with a
+    run-time check added to the emission loop: a slot `x` of listener `l` may be invoked for an
+    emission of signal (e, g) only if, at that very moment, emitter `e` exists, listener `l` exists
+    and the listener's own list for `e` contains the pair (g, x) — otherwise the run is flagged
+    `bad`.  (The listener side is updated at once by `disconnect`, `~Listener`, `~Emitter`; only the
+    emitter side defers.)  For every program the monitored run is never flagged and is, state
+    and log, the run of the unmonitored model: no invocation anywhere in any run violates the
+    condition. -/
+theorem never_invoked_unless_listed (P : Prog) (ne nl fuel : Nat) (ops : List Action) :
+    (runOps monitored P fuel (Run.init (State.create ne nl)) ops).bad = false ∧
+      (runOps monitored P fuel (Run.init (State.create ne nl)) ops).m =
+        (runOps machine P fuel (Run.init (State.create ne nl)) ops).m ∧
+      (runOps monitored P fuel (Run.init (State.create ne nl)) ops).log =
+        (runOps machine P fuel (Run.init (State.create ne nl)) ops).log := by
+  have h0 : RunRel SimM [] (Run.init (State.create ne nl)) (Run.init (State.create ne nl)) :=
+    ⟨⟨rfl, fun k hk => by simp at hk, SState.create ne nl, [], sim_init ne nl, rfl⟩, rfl, rfl, rfl, rfl⟩
+  have h := runOps_relM P fuel ops h0
+  exact ⟨h.bad₁, h.sim.1, h.log⟩
+
 /-- what "live in the specification" means: a disconnect removes the oldest connection of that
     receiver/slot, destroying a listener or an emitter removes all of theirs -/
 theorem spec_live_after_destroy (s : SState) :
@@ -180,6 +201,15 @@ theorem bookkeeping_consistent (P : Prog) (ne nl fuel : Nat) (ops : List Action)
       intro y hy
       have := (hq e g d hd).2.2 y hy
       simp [this]
+
+/-- **The fuel is only a device.**  A run of the model that did not exhaust its fuel is the same,
+    state, log and all, for every larger fuel (so the theorems above, which hold for every fuel,
+    speak about *the* behaviour of every terminating program; a program whose slots re-emit for
+    ever exhausts every fuel, as it exhausts the C++ stack). -/
+theorem fuel_irrelevant (P : Prog) (ne nl n : Nat) (ops : List Action)
+    (h : (runOps machine P n (Run.init (State.create ne nl)) ops).oof = false) (n' : Nat) (hn : n ≤ n') :
+    runOps machine P n' (Run.init (State.create ne nl)) ops = runOps machine P n (Run.init (State.create ne nl)) ops :=
+  runOps_fuel_mono machine P n ops _ h n' hn
 
 /-! ### non-vacuity: a concrete program in which a slot disconnects, re-connects and disconnects
     itself inside an emission (the input of defect D18), then is not invoked any more -/
